@@ -364,6 +364,10 @@ def requests(named):
     # same shape, other variable names (rdflib orders the patterns by name-dependent keys: the evaluation order changes)
     out["deletewhere-2-xyz"] = ([["deletewhere", [(V("x"), P, V("y"), "d"), (V("y"), Q, V("z"), "d")]]], 0)
     out["deletewhere-2-zyx"] = ([["deletewhere", [(V("z"), P, V("y"), "d"), (V("y"), Q, V("x"), "d")]]], 0)
+    # one variable in two positions of a pattern: only triples with the same term in both positions match
+    out["deletewhere-repeated-var"] = ([["deletewhere", [(S, P, S, "d")]]], 0)
+    out["deletewhere-repeated-var-const"] = ([["deletewhere", [(S, P, S, "d"), (S, Q, C(0), "d")]]], 1)
+    out["modify-repeated-var"] = ([["modify", None, [], [(S, P, S, "d")], [(S, Q, S, "d")], [tp(S, P, S)]]], 0)
     out["modify-swap"] = ([["modify", None, [], [(S, P, O, "d")], [(O, P, S, "d")], A]], 0)
     out["modify-shift"] = ([["modify", None, [], [(S, P, O, "d")], [(O, P, C(0), "d")], A]], 1)
     out["modify-insert-deleted"] = ([["modify", None, [], [(S, P, O, "d")], [(C(0), P, C(1), "d")], A]], 2)
@@ -383,6 +387,7 @@ def requests(named):
         out["insertdata-graph"] = ([["insertdata", [(C(0), P, C(1), "g1"), (C(0), Q, C(1), "d")]]], 2)
         out["deletedata-graph"] = ([["deletedata", [(C(0), P, C(1), "g1")]]], 2)
         out["deletewhere-graph"] = ([["deletewhere", [(S, P, O, "g1")]]], 0)
+        out["deletewhere-graph-repeated-var"] = ([["deletewhere", [(S, P, S, "g1")]]], 0)
         out["deletewhere-graphvar"] = ([["deletewhere", [(S, P, O, "?g")]]], 0)
         out["with-swap"] = ([["modify", "g1", [], [(S, P, O, "d")], [(O, P, S, "d")], A]], 0)
         out["with-graph-template"] = ([["modify", "g1", [], [(S, P, O, "d")], [(S, P, O, "g2")], A]], 0)
